@@ -615,6 +615,10 @@ func (w *World) Build(op Op) (*BuiltTx, error) {
 			qstr = "zz"
 		}
 		bt.Msgs = []sdk.Msg{&bridgetypes.MsgRequestAttestations{Creator: signer.Addr.String(), QueryId: qstr, Timestamp: tstr}}
+		if op.S == "twice" {
+			// the same request twice in one transaction: two identical snapshots requested at one height
+			bt.Msgs = append(bt.Msgs, &bridgetypes.MsgRequestAttestations{Creator: signer.Addr.String(), QueryId: qstr, Timestamp: tstr})
+		}
 	case OpWithdrawTokens:
 		amt := w.resolveAmount(op.Amt, signer, nil, 0)
 		rcpt := hex.EncodeToString(common.BytesToAddress([]byte{byte(op.R[0]), 0xaa}).Bytes())
